@@ -99,6 +99,13 @@ type endPoint struct {
 	stream        Stream
 	handlers      []*Handler
 	handlersMutex sync.Mutex
+	// uses counts how many times each slot of handlers has been
+	// given out. An handler identifier carries that count above the
+	// slot: an identifier kept after its handler is gone (a
+	// subscription cancelled after its object ended it, a call whose
+	// send fails after its answer arrived) designates nothing
+	// anymore, instead of whichever handler took the slot since.
+	uses []int
 	// closed is set when the handlers are closed: an handler
 	// registered afterwards is closed at once (with closeErr).
 	closed   bool
@@ -258,14 +265,43 @@ func (e *endPoint) Close() error {
 	return e.closeWith(nil)
 }
 
+// the part of an handler identifier which holds the slot, and the
+// part which holds the number of uses of that slot.
+const (
+	handlerSlotBits = 20
+	handlerUsesMask = 1<<10 - 1
+)
+
+// handlerID gives the slot out: it returns the identifier of its new
+// occupant. handlersMutex is held.
+func (e *endPoint) handlerID(slot int) int {
+	for len(e.uses) <= slot {
+		e.uses = append(e.uses, 0)
+	}
+	e.uses[slot]++
+	return (e.uses[slot]&handlerUsesMask)<<handlerSlotBits | slot
+}
+
+// handlerSlot returns the slot of the handler id designates, if it
+// is still there. handlersMutex is held.
+func (e *endPoint) handlerSlot(id int) (int, bool) {
+	slot := id & (1<<handlerSlotBits - 1)
+	if id < 0 || slot >= len(e.handlers) || slot >= len(e.uses) ||
+		e.handlers[slot] == nil ||
+		e.uses[slot]&handlerUsesMask != id>>handlerSlotBits {
+		return 0, false
+	}
+	return slot, true
+}
+
 // RemoveHandler unregister the associated Filter and Consumer.
 // WARNING: RemoveHandler must not be called from within the Filter or
 // the Consumer.
 func (e *endPoint) RemoveHandler(id int) error {
 	e.handlersMutex.Lock()
-	if id >= 0 && id < len(e.handlers) && e.handlers[id] != nil {
-		h := e.handlers[id]
-		e.handlers[id] = nil
+	if slot, ok := e.handlerSlot(id); ok {
+		h := e.handlers[slot]
+		e.handlers[slot] = nil
 		e.handlersMutex.Unlock()
 		// the handler is out of the table: nothing is sent to it
 		// anymore. Its close callback runs without the lock, since
@@ -293,11 +329,11 @@ func (e *endPoint) MakeHandler(f Filter, queue chan<- *Message, cl Closer) int {
 	for i, handler := range e.handlers {
 		if handler == nil {
 			e.handlers[i] = newHandler
-			return i
+			return e.handlerID(i)
 		}
 	}
 	e.handlers = append(e.handlers, newHandler)
-	return len(e.handlers) - 1
+	return e.handlerID(len(e.handlers) - 1)
 }
 
 // AddHandler register the associated Filter and Consumer to the
